@@ -91,6 +91,27 @@ func runC12(c *Ctx) {
 	}
 	c.R.RequireMin("R12.1", "constant-position segment accesses in LoadLicenses", len(obls), 1)
 
+	// R12.11: what is opened for one file of the corpus is released before the next file is looked at: no deferred call is
+	// queued inside a loop (a deferred Close runs when LoadLicenses returns - a corpus with more files than the process may
+	// have open descriptors then fails half way, unlike one AddContent per file)
+	{
+		nDefer, bad := 0, ""
+		for _, f := range fns {
+			for _, b := range f.Blocks {
+				for _, in := range b.Instrs {
+					if d, ok := in.(*ssa.Defer); ok {
+						nDefer++
+						if loopDepthOf(b) > 0 {
+							bad = p.Pos(d.Pos())
+						}
+					}
+				}
+			}
+		}
+		c.R.Check(bad == "", "R12.11", "LoadLicenses: nothing is deferred inside a loop over the files", p.Pos(ll.Pos()), fmt.Sprintf("%d deferred calls, none in a loop", nDefer),
+			"a call is deferred inside a loop at "+bad+": the resource of every file stays open until LoadLicenses returns, so a large corpus exhausts the file descriptors and the files behind that point are missing")
+	}
+
 	// R12.2
 	checkDirTaint(c, p, ll)
 
